@@ -362,6 +362,8 @@ def check_case(case, res):
 def run_shard(params):
     res = Result()
     rng = random.Random(params["seed"] * 100297 + params["shard"])
+    if params["shard"] == 0:
+        fork_leg(res, rng)
     for i in range(params["n"]):
         case = gen_case(rng)
         check_case(case, res)
@@ -376,8 +378,137 @@ def run_shard(params):
     return res
 
 
+def fork_trial(rng, nterm=8):
+    """two worker processes forked from this one (the default start method
+    of multiprocessing on Linux) address the two halves of one bus at the
+    same time; the bus lives here and serves both over socket pairs.
+    Returns the station addresses, or None (watchdog)."""
+    import os
+    import selectors
+    import socket
+    terms = [bus.SimTerminal(f"T{i}", eeprom=eeprom_image(i + 1))
+             for i in range(nterm)]
+    b = bus.Bus(terms)
+    # (station addresses above 32767 cannot be sent: the datagram header
+    # is packed with a signed address)
+    lo = rng.choice([1000, 100, 3000])
+    rang = (lo, lo + 28999)
+    halves = [list(range(0, nterm // 2)), list(range(nterm // 2, nterm))]
+    socks, pids = [], []
+    for idxs in halves:
+        mine, theirs = socket.socketpair(socket.AF_UNIX,
+                                         socket.SOCK_SEQPACKET)
+        pid = os.fork()
+        if pid == 0:
+            code = 1
+            try:
+                mine.close()
+                for s_ in socks:
+                    s_.close()
+
+                class Tr:
+                    _sock = bus.FakeSock()
+
+                    def get_extra_info(self, name, default=None):
+                        return bus.FakeSock() if name == "socket" \
+                            else default
+
+                    def sendto(self, data, addr=None):
+                        theirs.send(bytes(data))
+
+                    def close(self):
+                        pass
+
+                async def worker():
+                    loop = asyncio.get_running_loop()
+                    ec = EtherCat("vf")
+                    ec.terminal_addr_range = rang
+                    ec.send_queue = asyncio.Queue()
+                    ec.connection_made(Tr())
+                    loop.add_reader(theirs, lambda: ec.datagram_received(
+                        theirs.recv(65536), None))
+                    ts = [Terminal(ec) for _ in idxs]
+                    await asyncio.wait_for(asyncio.gather(
+                        *[t.initialize(relative=-i)
+                          for t, i in zip(ts, idxs)]), 25)
+                theirs.recv(1)                  # the start signal
+                asyncio.run(worker())
+                code = 0
+            except BaseException:
+                import traceback
+                traceback.print_exc()
+            finally:
+                os._exit(code)
+        theirs.close()
+        socks.append(mine)
+        pids.append(pid)
+    sel = selectors.DefaultSelector()
+    for s_ in socks:
+        sel.register(s_, selectors.EVENT_READ)
+        s_.send(b"g")
+    live = set(socks)
+    import time
+    t0 = time.time()
+    while live and time.time() - t0 < 40:
+        for key, _ in sel.select(0.5):
+            s_ = key.fileobj
+            try:
+                data = s_.recv(65536)
+            except OSError:
+                data = b""
+            if not data:
+                sel.unregister(s_)
+                live.discard(s_)
+                continue
+            try:
+                s_.send(b.process(data))
+            except OSError:
+                pass
+    ok = not live
+    for pid in pids:
+        if live:
+            try:
+                os.kill(pid, 9)
+            except OSError:
+                pass
+        _, st = os.waitpid(pid, 0)
+        ok = ok and st == 0
+    for s_ in socks:
+        s_.close()
+    return [t.station for t in terms] if ok else None
+
+
+def fork_leg(res, rng):
+    """(the draws of two independent masters can coincide - the code has no
+    protection against that beyond the size of the range, about 5e-4 per
+    trial here - so the verdict needs duplicates in two of three trials)"""
+    dup = []
+    for trial in range(3):
+        st = fork_trial(rng)
+        if st is None:
+            res.inconc("fork leg: a worker did not finish")
+            return
+        res.count("fork_trials")
+        res.case(["fork", trial, st], nontrivial=True)
+        if 0 in st:
+            res.violation("unexplained:fork-unaddressed",
+                          f"forked workers left terminals unaddressed: {st}",
+                          case=dict(kind="fork"))
+            return
+        if len(set(st)) != len(st):
+            dup.append(st)
+    if len(dup) >= 2:
+        res.violation(
+            "unexplained:forked-workers-hand-out-the-same-addresses",
+            f"two forked worker processes addressed the two halves of one "
+            f"bus at the same time; in {len(dup)} of 3 trials terminals "
+            f"share an address: {dup[0]}", case=dict(kind="fork"))
+
+
 def finalize(res, tier, seed):
     c = res.counters
+    if not c.get("fork_trials"):
+        res.inconc("fork leg did not run")
     for m in ("initialize", "scan", "scan+initialize", "scan||initialize",
               "two-masters", "cancelled-scan+scan", "reinit-after-insert",
               "reconnect"):
@@ -387,5 +518,8 @@ def finalize(res, tier, seed):
 
 def replay(v):
     res = Result()
+    if v["case"].get("kind") == "fork":
+        fork_leg(res, random.Random(0))
+        return res
     check_case(v["case"], res)
     return res
